@@ -12,7 +12,7 @@ CHECKS = [
     {
         "id": "C11",
         "technique": "Hypothesis-generated operation histories (stateful, op-list form) over a scripted socket with a history invariant; reader(socket) vs reader(file) differential",
-        "text": "Generated histories of peer sends / timeouts / OS errors / close interleaved with read(n) and readline on SocketWrapper at seven bufsizes; after every step delivered ++ buffered must equal everything recv() handed out, read sizes and readline termination must obey the contract; RTCMReader over a socket with generated segmentation must return what RTCMReader over BytesIO returns. Histories use every OSError subclass as a fault and include 96 KiB .. 2.5 MiB (thorough 9 MiB) streams through one wrapper; the same operations are also driven by a Hypothesis RuleBasedStateMachine. The socket-vs-file differential also runs over chunked (plain / gzip / zlib / deflate) sockets and sockets wrapped by the caller; streams of frames free of sync bytes, cut at the reader's read boundaries with timeouts between segments, must deliver every frame that no stall falls inside, once and in order. The differential also aligns items to the buffer size, lets every receive fill the buffer exactly, and repeats items hundreds of times inside one compressed chunk.",
+        "text": "Generated histories of peer sends / timeouts / OS errors / close interleaved with read(n) and readline on SocketWrapper at seven bufsizes; after every step delivered ++ buffered must equal everything recv() handed out, read sizes and readline termination must obey the contract; RTCMReader over a socket with generated segmentation must return what RTCMReader over BytesIO returns. Histories use every OSError subclass as a fault and include 96 KiB .. 2.5 MiB (thorough 9 MiB) streams through one wrapper; the same operations are also driven by a Hypothesis RuleBasedStateMachine. The socket-vs-file differential also runs over chunked (plain / gzip / zlib / deflate) sockets and sockets wrapped by the caller; streams of frames free of sync bytes, cut at the reader's read boundaries with timeouts between segments, must deliver every frame that no stall falls inside, once and in order. The differential also aligns items to the buffer size, lets every receive fill the buffer exactly, and repeats items hundreds of times inside one compressed chunk. A third of the wrapper histories never inspect the wrapper's buffer (prefix invariant per step, equality after close and drain); a second reader may take over the first one's datastream.",
         "note": "Scripted sockets stand for the kernel; real socket options are represented only by TimeoutError / OSError from recv().",
     },
     {
@@ -24,7 +24,7 @@ CHECKS = [
     {
         "id": "C13",
         "technique": "Hypothesis-generated parse histories (op lists) with deep table digests + generated deterministic thread schedules (harness-owned line-level scheduler) + free-running thread stress",
-        "text": "Generated histories of valid / failing / mixed-type parses through four entry points and a long-lived reader (compared with a fresh reader over the same frame: junk before frames, wrong trailers with validation off, polling after the stream ran dry): each result must equal the independent interpreter's expectation and the first parse of the same bytes, and the definition / lookup tables must keep their import-time digest after every step; 2-4 parse jobs are interleaved at source-line granularity following a generated choice list and must give the sequential results; an 8-thread free-running stress with a 1 microsecond switch interval backs this up. Also: fresh child interpreters in which six threads parse and checksum at once before anything else was parsed (lazy initialisation), sibling re-numberings (same masks under another constellation), immediate repeats of failing frames on a long-lived reader, and a hash-built workload with thousands of distinct group-index tuples in the thread stress.",
+        "text": "Generated histories of valid / failing / mixed-type parses through four entry points and a long-lived reader (compared with a fresh reader over the same frame: junk before frames, wrong trailers with validation off, polling after the stream ran dry): each result must equal the independent interpreter's expectation and the first parse of the same bytes, and the definition / lookup tables must keep their import-time digest after every step; 2-4 parse jobs are interleaved at source-line granularity following a generated choice list and must give the sequential results; an 8-thread free-running stress with a 1 microsecond switch interval backs this up. Also: fresh child interpreters in which six threads parse and checksum at once before anything else was parsed (lazy initialisation), sibling re-numberings (same masks under another constellation), immediate repeats of failing frames on a long-lived reader, and a hash-built workload with thousands of distinct group-index tuples in the thread stress. The long-lived reader is driven through read(), next(), next(iter(reader)), a kept iterator and for loops left early, with parsing on or off.",
         "note": "Interleavings finer than a source line and GIL-free parallelism are not explored.",
     },
     {
@@ -72,7 +72,7 @@ CHECKS = [
     {
         "id": "C05",
         "technique": PBT + " (list model of the stream: undamaged frames, handler / log-record / exception counts)",
-        "text": "Generated streams of valid frames with generated subsets damaged by guaranteed-detectable patterns at generated positions, under ignore / log+handler / log without handler / raise; the reader must return exactly the undamaged frames in order, report once per damaged frame in log mode, never in ignore mode, and in raise mode raise at each damaged frame in event order while the same reader keeps working. Also enumerated completely: every message number in a 2-byte-payload frame x every single-bit damage position; long runs (1200 / 10000) of consecutive damaged frames; re-broadcast frames damaged twice; handler objects of several kinds (incl. falsy callables). Handlers include callable objects with logger- / file-like attributes and functools.partial.",
+        "text": "Generated streams of valid frames with generated subsets damaged by guaranteed-detectable patterns at generated positions, under ignore / log+handler / log without handler / raise; the reader must return exactly the undamaged frames in order, report once per damaged frame in log mode, never in ignore mode, and in raise mode raise at each damaged frame in event order while the same reader keeps working. Also enumerated completely: every message number in a 2-byte-payload frame x every single-bit damage position; long runs (1200 / 10000) of consecutive damaged frames; re-broadcast frames damaged twice; handler objects of several kinds (incl. falsy callables). Handlers include callable objects with logger- / file-like attributes and functools.partial. Damaged frames are also read from non-seekable buffered streams (pipes).",
         "note": "Damage is confirmed detectable by the harness's CRC reference before use.",
     },
     {
@@ -108,7 +108,7 @@ CHECKS = [
     {
         "id": "C02",
         "technique": PBT + " (generator's own list of emitted frames as oracle; BytesIO / BufferedReader / scripted-socket streams)",
-        "text": "Generated well-formed sequences of frames of every defined and unknown type (incl. 0/1-byte filler and 1023-byte frames), NMEA, UBX and inert noise, iterated through RTCMReader over three stream kinds with generated segmentation; the returned raw frames must contain every number-carrying frame exactly once, in order, byte for byte, and iteration must stop cleanly. Sampled search; no absence claim. Items are also placed at chosen distances (-3..3) from multiples of the buffer size (512 / 4096 / 8192, files and sockets; complete), and UBX length fields around every multiple of 4096 and power of two are enumerated.",
+        "text": "Generated well-formed sequences of frames of every defined and unknown type (incl. 0/1-byte filler and 1023-byte frames), NMEA, UBX and inert noise, iterated through RTCMReader over three stream kinds with generated segmentation; the returned raw frames must contain every number-carrying frame exactly once, in order, byte for byte, and iteration must stop cleanly. Sampled search; no absence claim. Items are also placed at chosen distances (-3..3) from multiples of the buffer size (512 / 4096 / 8192, files and sockets; complete), and UBX length fields around every multiple of 4096 and power of two are enumerated. Streams may be pipes, or files handed over positioned in the middle.",
         "note": "Trusts the harness's frame builder / CRC reference and the pinned NMEA talker list; filler frames may or may not be returned themselves.",
     },
     {
